@@ -19,6 +19,7 @@ NEXT = {0: 1, 1: 2, 2: 3, 3: 4, 4: 5, 5: 6, 6: 7, 7: 8, 8: 10, 10: 11, 11: 12, 1
 STEP0_REQUEST = bytes([0x7E, 0x04, 0x00, 0xFE, 0x20, 0x10, 0x00, 0x00, 0x00, 0x0C, 0x60, 0xE1])
 P2P_PORT, RDAC_PORT = 50000, 50002
 IPS = ["10.1.1.1", "10.1.1.2", "10.1.1.3"]
+IPS6 = ["2001:db8:0:a::1", "2001:db8:0:b::1", "::ffff:10.1.1.1"]  # two hosts with the same last group; an IPv4-mapped twin of IPS[0]
 
 
 def utf16_field(text, n):
@@ -143,6 +144,11 @@ class C18(Check):
         if arm.startswith("exh"):
             return self._gen_exh(index, w)
         npeers = k.choice([1, 2, 2, 3, 3])
+        ips = list(IPS)
+        v6 = k.random() < 0.2
+        if v6:
+            ips = [IPS6[0], IPS6[1], k.choice([IPS[0], IPS6[2]])]
+        v6tuple = v6 and k.random() < 0.5  # asyncio hands (host, port, flowinfo, scope_id) to datagram_received for IPv6 sockets
         knobs = {"peers": npeers, "uuid_seed": k.getrandbits(32), "shared_addr": k.random() < 0.25,
                  "app_sets_out": k.random() < 0.5, "snmp_patches": k.random() < 0.3}
         rates = {}
@@ -160,7 +166,7 @@ class C18(Check):
         dropped = 0
         for _ in range(n):
             t += w.expovariate(20.0)
-            ip = IPS[s.randrange(npeers)]
+            ip = ips[s.randrange(npeers)]
             fl = []
             port_p2p = P2P_PORT if not knobs["shared_addr"] else RDAC_PORT
             if rates and f.random() < rates.get("peer_rebind", 0):
@@ -191,6 +197,8 @@ class C18(Check):
                     "reg255": lambda: p2p_cmd(w.choice([0x10, 0x11, 0x12]), w, rid=255), "pingshort": lambda: p2p_ping(w, n=w.randrange(9, 15)),
                     "garbage": lambda: bytes(w.getrandbits(8) for _ in range(w.randrange(1, 40))), "empty": lambda: b"",
                 }[c]()
+            if v6tuple and ":" in src[0]:
+                src = src + [0, 0]
             op = {"kind": "deliver", "t": round(t, 6), "dst": dst, "src": src, "data": data.hex(), "f": fl, "snmp_fail": False}
             if rates:
                 if f.random() < rates.get("snmp_fail", 0):
@@ -501,7 +509,7 @@ class C18(Check):
                         V("C18.rdac-destination", f"step{s0}", f"RDAC handler answered {a} for a datagram from {A}")
                 key = f"RDAC|-|-|{s0}|{cls}|{fault}|{other_active}"
             active_ips.add(A[0])
-            if len({p for (ip2, p) in {tuple(o["src"]) for o in case["ops"][: i + 1] if o["kind"] == "deliver"} if ip2 == A[0]}) > 1:
+            if len({sa[1] for sa in {tuple(o["src"]) for o in case["ops"][: i + 1] if o["kind"] == "deliver"} if sa[0] == A[0]}) > 1:
                 res.probe("same_ip_two_ports")
             res["cov"].add(key)
             # shared storage invariants (ties C20's guarantee to its real users)
